@@ -48,6 +48,15 @@ def body(prop, rule, tier, seed, replay):
     if prop == "C12":
         res = core.tlc_mc("C12-conc", "TendrilConc.tla", "TendrilConc.cfg" if q else "TendrilConc_thorough.cfg", timeout=3000)
         r.add_mc("TendrilConc", res)
+        # the same protocol with an unbounded number of views: inductive invariant discharged by Apalache (symbolic)
+        steps = [("init", "Init", "IndInv", 0), ("step", "IndInit", "IndInv", 1), ("implies-safety", "IndInit", "Safety", 0)]
+        ap = [core.apalache_check("C12-apalache-" + n, "TendrilConcInd.tla", init, inv, k) for (n, init, inv, k) in steps]
+        r.extra["apalache_inductive_invariant"] = [dict(step=steps[i][0], init=steps[i][1], inv=steps[i][2], length=steps[i][3],
+                                                        outcome=a["outcome"], wall_s=a["wall_s"]) for i, a in enumerate(ap)]
+        for i, a in enumerate(ap):
+            core.log("[apalache] TendrilConcInd %s: %s (%.0fs)" % (steps[i][0], a["outcome"], a["wall_s"]))
+            if not a["ok"]:
+                r.tool_errors.append("apalache %s: outcome %s (see %s)" % (steps[i][0], a["outcome"], a["log"]))
         r.gen_validate("threads", ["tendril-mt", "--n", 300 if q else 5000], SPEC, CFG, 4, classify, core.count_resets, env=env)
     r.gen_validate("random-histories", ["tendril", "--n", 250 if q else 5000, "--ops", 60], SPEC, CFG, N, classify, core.count_resets,
                    env=env, timeout=5000)
@@ -60,6 +69,6 @@ def run(tier, seed, replay=None):
     r = body("C11", RULE, tier, seed, replay)
     if isinstance(r, int):
         return r
-    r.assumptions = ["WTF-8 tendrils (surrogate fix-up on push) are not modelled", "char-level pops (pop_front_char*) are not driven",
+    r.assumptions = ["conversions between formats (as_superset, try_reinterpret, into_bytes) are not generated",
                      "the L1 representation is checked at model level; real representations are not observed (no hook), only values"]
     return r.finish(RULE)
